@@ -67,7 +67,7 @@ PRODFAULTS = '{[kind |-> "producer", slot |-> s, when |-> w] : s \\in 1..4, w \\
 INJ = ["crlf", "crlfcrlf", "lf", "cr", "nul", "ctl", "quotes", "encword", "badutf8", "utf8", "long", "token1000", "blanks", "tabs"]
 SETTERS = ["subject", "gen", "org", "ua", "msgid", "fromname", "toname", "mdnname", "replyto", "hdr", "mdnadd", "envfrom"]
 FIXEDSETTERS = ["bulk", "importance", "hdrpre"]
-NAMECLS = '{"", "utf8", "path", "semi", "crlf", "nul", "quotes", "long", "dotted", "blanks"}'
+NAMECLS = '{"", "utf8", "path", "semi", "crlf", "nul", "quotes", "long", "dotted", "blanks", "ctlonly", "ctl"}'
 DESCCLS = '{"", "plain", "utf8", "longutf8", "crlf", "lf", "nul", "long", "quotes"}'
 LENS = '<<"size54", "size55", "size56", "size57", "size58", "size59", "size60", "size74", "size75", "size76", "size77", "size78", "size79", "size80", "size114", "size115", "size116", "size171", "size400", "size401", "size20000">>'
 
